@@ -65,6 +65,10 @@ def part_single(ctx, helper, root):
     ctx.rng.shuffle(g)
     g = g[:(40 if ctx.quick() else 1500)]
     scs = [dict(s, idx=i) for i, s in enumerate(g)]
+    # every other scenario with an installed (already due) pair runs with a non-default random_early_renew
+    for s in scs:
+        if s.get("pair") and s["idx"] % 2 == 0:
+            s["random_early_renew"] = "1d"
     # hook faults: challenge hook / post-operation hook / file hooks exiting non-zero
     hookscs = []
     # (a negative code = the hook kills itself with that signal: it has no exit status at all)
